@@ -453,6 +453,8 @@ type CliCase struct {
 	Tips    bool        `json:"tips"`
 	Mode    string      `json:"mode"` // table | binary | rf | weighted
 	Threads int         `json:"threads"`
+	Bad     string      `json:"bad,omitempty"` // "" | mismatch (one compared tree on other taxa) | broken (a record that is not a tree)
+	BadPos  int         `json:"bad_pos,omitempty"`
 }
 
 func checkCli(c CliCase) error {
@@ -465,7 +467,18 @@ func checkCli(c CliCase) error {
 	}
 	dir := cli.Scratch()
 	var comps strings.Builder
-	for _, m := range c.Comps {
+	for i, m := range c.Comps {
+		if c.Bad != "" && i == c.BadPos%len(c.Comps) {
+			switch c.Bad {
+			case "mismatch":
+				mm := m.Clone()
+				mm.TipNodes()[c.BadPos%len(mm.TipNodes())].Name = "zz_other"
+				comps.WriteString(ref.Write(mm) + "\n")
+			default:
+				comps.WriteString("((a,b),c;\n")
+			}
+			continue
+		}
 		comps.WriteString(ref.Write(m) + "\n")
 	}
 	args := []string{"compare", "trees", "-i", cli.Write(dir, "ref.nw", ref.Write(c.Ref)+"\n"), "-c", cli.Write(dir, "comp.nw", comps.String()), "-t", strconv.Itoa(c.Threads)}
@@ -482,6 +495,19 @@ func checkCli(c CliCase) error {
 	}
 	r := cli.Run(dir, "", args...)
 	ctx := fmt.Sprintf(" (gotree %v)\n ref %s\n%s", args, ref.Write(c.Ref), comps.String())
+	if c.Bad != "" {
+		// a compared tree on other taxa, or a record that is not a tree: rejected with an error
+		if r.TimedOut {
+			return fmt.Errorf("the command does not end when a compared tree is bad (%s at position %d)%s", c.Bad, c.BadPos%len(c.Comps), ctx)
+		}
+		if r.Panicked() {
+			return fmt.Errorf("the command crashes on a bad compared tree (%s): %s%s", c.Bad, r.Stderr, ctx)
+		}
+		if r.Code == 0 {
+			return fmt.Errorf("a bad compared tree (%s at position %d) is not reported: exit status 0, output %q%s", c.Bad, c.BadPos%len(c.Comps), r.Stdout, ctx)
+		}
+		return nil
+	}
 	if r.Code != 0 || r.TimedOut {
 		return fmt.Errorf("command failed with status %d: %s%s", r.Code, r.Stderr, ctx)
 	}
@@ -544,15 +570,20 @@ func checkCli(c CliCase) error {
 
 func TestC08Cli(t *testing.T) {
 	h.Run(t, h.Spec[CliCase]{
-		Property: "C08", Name: "cli", Quick: 1600, Thorough: 32000,
-		Rule: "the same related tree pairs (1-5 compared trees) through `gotree compare trees` in its four output modes (count table, --binary, --rf, --weighted), with and without -l, with 1-8 threads: every printed column is recomputed from the reference split sets (counts exactly; weighted RF and KF to the 7 printed digits); identifiers must be those of the file, --rf lines must be in file order; non-trivial = >= 2 compared trees",
+		Property: "C08", Name: "cli", Quick: 1600, Thorough: 32000, Timeout: 90e9,
+		Rule: "the same related tree pairs (1-5 compared trees) through `gotree compare trees` in its four output modes (count table, --binary, --rf, --weighted), with and without -l, with 1-8 threads: every printed column is recomputed from the reference split sets (counts exactly; weighted RF and KF to the 7 printed digits); identifiers must be those of the file, --rf lines must be in file order; in one case in five one compared tree is on other taxa or is not a tree: the command must end with a non-zero status in every mode; non-trivial = >= 2 compared trees",
 		Gen: func(t *rapid.T, thorough bool) CliCase {
 			b := genCase(t, false)
-			return CliCase{Ref: b.Ref, Comps: b.Comps, Tips: b.Tips, Mode: rapid.SampledFrom([]string{"table", "binary", "rf", "weighted"}).Draw(t, "mode"), Threads: rapid.SampledFrom([]int{1, 1, 2, 4, 8}).Draw(t, "threads")}
+			c := CliCase{Ref: b.Ref, Comps: b.Comps, Tips: b.Tips, Mode: rapid.SampledFrom([]string{"table", "binary", "rf", "weighted"}).Draw(t, "mode"), Threads: rapid.SampledFrom([]int{1, 1, 2, 4, 8}).Draw(t, "threads")}
+			if rapid.IntRange(0, 4).Draw(t, "hasbad") == 2 {
+				c.Bad = rapid.SampledFrom([]string{"mismatch", "broken"}).Draw(t, "bad")
+				c.BadPos = rapid.IntRange(0, 20).Draw(t, "badpos")
+			}
+			return c
 		},
 		Check: checkCli,
 		Classify: func(c CliCase) (bool, []string) {
-			return len(c.Comps) >= 2, []string{"mode:" + c.Mode, fmt.Sprintf("threads:%d", c.Threads)}
+			return len(c.Comps) >= 2, []string{"mode:" + c.Mode, fmt.Sprintf("threads:%d", c.Threads), "bad:" + c.Bad, c.Mode + "/bad:" + c.Bad}
 		},
 	})
 }
